@@ -20,6 +20,9 @@ var (
 	// ErrKnownRootMismatch is the error returned by CommitKnown when the known
 	// root mismatches.
 	ErrKnownRootMismatch = errors.New("mkvs: known root mismatch")
+
+	// ErrKeyTooLong is the error returned when a key is longer than node.MaxKeySize.
+	ErrKeyTooLong = errors.New("mkvs: key too long")
 )
 
 // ImmutableKeyValueTree is the immutable key-value store tree interface.
